@@ -261,9 +261,18 @@ def run_history(seq):
         try:
             for i, q in enumerate(seq):
                 when = pd.Timestamp(f'2024-09-0{q["d"]}T{q["h"]:02d}:00:00', tz='UTC')
-                gs = w.get_ground_speed(time=when, gt_point=pt, altitude=alt, true_airspeed=0.0, azimuth=90.0)
+                prev = [(x['d'], x['h']) for x in seq[:i]]
+                try:
+                    gs = w.get_ground_speed(time=when, gt_point=pt, altitude=alt, true_airspeed=0.0, azimuth=90.0)
+                except (FileNotFoundError, ValueError) as e:
+                    if not q.get('refused'):
+                        devs.append((f'weather-cache:raised-{type(e).__name__}', f'query (day {q["d"]}, hour {q["h"]}) after {prev} on one Weather object raised {type(e).__name__}: {e}'))
+                        break
+                    continue
+                if q.get('refused'):
+                    devs.append(('weather-cache:missing-day-not-refused', f'query (day {q["d"]}, hour {q["h"]}: no weather file for that day) after {prev} on one Weather object returned ground speed {gs:.1f}; specification: refused'))
+                    break
                 if abs(gs - q['wind']) > 1e-6:
-                    prev = [(x['d'], x['h']) for x in seq[:i]]
                     devs.append(('weather-cache:history-dependent', f'query (day {q["d"]}, hour {q["h"]}) after {prev} on one Weather object used wind {gs:.1f}; the file for that day and hour holds {q["wind"]}'))
                     break
         finally:
@@ -282,7 +291,7 @@ def run(ctx: Ctx):
     ctx.rule = (
         'cases (TLC-enumerated): 12 headings (cardinals and 3-4-5 directions) x airspeeds {100,200,250} x uniform winds from {0,+-15,+-20,+-25}^2 (1 764); '
         '4 spatially varying fields x 5 headings x 2x2 offsets x 27 half-lattice positions (2 160); 6 positions outside the domain; every case with and without a valid_time axis; '
-        'all 1 296 histories of 4 queries (3 days, one without time axis, x 2 hours) on one Weather object (WeatherCache.tla); non-trivial = non-cardinal heading with non-zero wind / history with a change of day or hour'
+        'all 1 296 histories of 4 queries (3 days, one without time axis, x 2 hours) on one Weather object plus 128 histories with a refused request (day without a file) repeated (WeatherCache.tla); non-trivial = non-cardinal heading with non-zero wind / history with a change of day or hour'
     )
     ctx.assumptions += [
         'the vertical lattice is mapped to altitudes with the library\'s own altitude_from_pressure_isa_bada4 (round trip verified in C12)',
@@ -290,7 +299,12 @@ def run(ctx: Ctx):
     ]
     ctx.not_covered += ['accuracy of the altitude -> pressure-level conversion itself (a wrong but monotone formula shifts the query off the lattice node and is only caught by the level-varying fields)']
     if ctx.replay:
-        cases = [json.loads(Path(ctx.replay).read_text())['case']['case']]
+        rc = json.loads(Path(ctx.replay).read_text())['case']
+        if 'history' in rc:
+            for key, desc in run_history(rc['history']):
+                ctx.violation(key, desc, rc)
+            return
+        cases = [rc['case']]
     else:
         tlc.check(ctx, 'geo/Wind', 'geo/MC_Wind.cfg', workers=8)
         cases = tlc.check(ctx, 'geo/WindGen', 'geo/Gen_Wind.cfg', workers=8)['emitted']
@@ -299,6 +313,8 @@ def run(ctx: Ctx):
     if not ctx.replay:
         tlc.check(ctx, 'geo/WeatherCache', 'geo/MC_WeatherCache.cfg', workers=8)
         seqs = tlc.check(ctx, 'geo/WeatherCacheGen', 'geo/Gen_WeatherCache.cfg', workers=8)['emitted']
+        # a day without a weather file: refused, and refused again when the same request is repeated
+        seqs += tlc.check(ctx, 'geo/WeatherCacheGen', 'geo/Gen_WeatherRepeat.cfg', workers=8)['emitted']
         for seq, devs in zip(seqs, pmap(run_history, seqs)):
             ctx.case_done(('history', seq), nontrivial=len({(q['d'], q['h']) for q in seq}) > 1)
             ctx.sample({'weather_query_history': [(q['d'], q['h'], q['wind']) for q in seq]}, limit=4)
